@@ -30,9 +30,9 @@ type (
 	Locker    = realsync.Locker
 )
 
-func NewCond(l Locker) *Cond                    { return realsync.NewCond(l) }
-func OnceFunc(f func()) func()                  { return realsync.OnceFunc(f) }
-func OnceValue[T any](f func() T) func() T      { return realsync.OnceValue(f) }
+func NewCond(l Locker) *Cond               { return realsync.NewCond(l) }
+func OnceFunc(f func()) func()             { return realsync.OnceFunc(f) }
+func OnceValue[T any](f func() T) func() T { return realsync.OnceValue(f) }
 
 // ---------------------------------------------------------------------------------------------
 // choices
@@ -261,6 +261,10 @@ func release() VC {
 	return nil
 }
 
+// Yield is a scheduling point for harness code (e.g. a writer that may be slow: the scheduler may
+// run another thread in the middle of its Write).
+func Yield() { point() }
+
 // Access is inserted by the overlay generator before statements that read or write a watched
 // plain field: a scheduling point plus a happens-before check.
 func Access(p unsafe.Pointer, write bool, name string) {
@@ -444,8 +448,8 @@ type RWMutex struct {
 	w     bool
 	r     int
 	wwait int // writers blocked in Lock: like the real RWMutex, they exclude new readers
-	vc  VC // released by writers
-	rvc VC // released by readers
+	vc    VC  // released by writers
+	rvc   VC  // released by readers
 }
 
 func (m *RWMutex) Lock() {
